@@ -1059,8 +1059,8 @@ def oracle_c11(ctx, st, op, info):
                               "cov_diagonal", lambda: f"cov_fn({d}) diagonal {c[0, 0]!r},{c[1, 1]!r} != std^2 {sf ** 2!r},{sa ** 2!r}",
                               key=key)
                 if equal_counts and len(F) >= 2:          # reduces to the pooled unweighted statistic
-                    ctx.check(_same(got[f"mean_fn_frequency({d})"], ST.mean(F, d)) and
-                              _same(got[f"std_fn_frequency({d})"], ST.std(F, d)), "pooled_reduction",
+                    ctx.check(stat_same(f"mean_fn_frequency({d})", got[f"mean_fn_frequency({d})"], ST.mean(F, d), F, Aa, np.zeros(0)) and
+                              stat_same(f"std_fn_frequency({d})", got[f"std_fn_frequency({d})"], ST.std(F, d), F, Aa, np.zeros(0)), "pooled_reduction",
                               lambda: f"equal counts per azimuth but fn statistics ({d}) differ from the pooled unweighted ones",
                               key=key)
                     ctx.probe("c11_equal_counts")
@@ -1077,8 +1077,8 @@ def oracle_c11(ctx, st, op, info):
                               lambda: f"{name} differs from the weighted estimator with n_a={[int(x.sum()) for x in Ws]}: "
                                       f"got {g!r}, expected {e!r}", key={**key, "stat": name.split("(")[0]})
                 if len(set(int(x.sum()) for x in Ws)) == 1:
-                    ctx.check(_same(got[f"mean_curve({d})"], ST.mean(rows, d, axis=0)) and
-                              _same(got[f"std_curve({d})"], ST.std(rows, d, axis=0)), "pooled_reduction",
+                    ctx.check(stat_same(f"mean_curve({d})", got[f"mean_curve({d})"], ST.mean(rows, d, axis=0), np.zeros(0), np.zeros(0), rows) and
+                              stat_same(f"std_curve({d})", got[f"std_curve({d})"], ST.std(rows, d, axis=0), np.zeros(0), np.zeros(0), rows), "pooled_reduction",
                               f"equal counts per azimuth but mean/std curve ({d}) differ from the pooled unweighted ones", key=key)
     if not (fn_ok and mc_ok):
         return
